@@ -2,6 +2,7 @@ import Bclv.Model.Api
 import Bclv.Verifier
 import Bclv.Model.Args
 import Bclv.Model.ProtoRun
+import Bclv.Model.BindWire
 /-!
 # Line-protocol driver: one operation per input line, one result line per operation.
 All payloads are hexadecimal.
@@ -124,6 +125,7 @@ def runOp (words : List String) : String :=
       else .dataEof (fromHex (t.drop 1).toString)
     let its := if items == "-" then [] else (items.splitOn ",").map parseItem
     Bclv.Proto.protoAnswer cap.toNat! (fromHex name) its
+  | ["BIND", payload] => Bclv.Bind.bindAnswer payload
   | ["ARGS", argv] =>
     let args : List Bclv.Args.Arg := if argv == "-" then [] else
       (argv.splitOn ",").map (fun h => (fromHex h).map (fun b => Char.ofNat b.toNat))
